@@ -11,6 +11,7 @@ def build_obs(tier, tables=None):
     obs = []
     for nd in (1, 2, 3):
         obs.append(Ob("searchpath-rel-%ddirs" % nd, "path_step.c", ["-DMODE=1", "-DNDIRS=%d" % nd], unwind=8, checks="std", must_reach=("end of harness", "found", "not found")))
+    obs.append(Ob("searchpath-relslash-2dirs", "path_step.c", ["-DMODE=1", "-DNDIRS=2", "-DREL_SLASH"], unwind=9, checks="std", must_reach=("end of harness", "found", "not found")))
     obs.append(Ob("searchpath-abs-2dirs", "path_step.c", ["-DMODE=1", "-DNDIRS=2", "-DABSOLUTE"], unwind=8, checks="std", must_reach=("end of harness", "found", "not found")))
     for nn in ((5,) if tier == "quick" else (5, 7)):
         obs.append(Ob("tilde-n%d" % nn, "path_step.c", ["-DMODE=2", "-DNNAME=%d" % nn], unwind=nn + 4, checks="full", must_reach=("end of harness", "plain", "self", "user")))
